@@ -201,7 +201,10 @@ func groupDomain(g group.Group, name string) *domain {
 			return must(c.args[0].(polynomial.Polynomial).Evaluate(sc(c.args[1])).MarshalBinary())
 		}, weight: 2},
 		{name: "P.Coefficient", recv: S, args: []int{P}, x: func(rng *rand.Rand, _ [][]interface{}) []byte { return []byte{byte(rng.Intn(2))} },
-			do: func(c *call) []byte { *c.recv = c.args[0].(polynomial.Polynomial).Coefficient(uint(c.x[0])); return nil }, weight: 3},
+			do: func(c *call) []byte {
+				*c.recv = c.args[0].(polynomial.Polynomial).Coefficient(uint(c.x[0]))
+				return nil
+			}, weight: 3},
 		{name: "G.HashToElement", recv: E, x: func(rng *rand.Rand, _ [][]interface{}) []byte { return []byte{byte(rng.Intn(3))} },
 			do: func(c *call) []byte { *c.recv = g.HashToElement(c.x, []byte("dst")); return nil }, weight: 1},
 		{name: "G.Params", recv: -1, do: func(c *call) []byte { p := g.Params(); return []byte(fmt.Sprint(*p)) }, weight: 1},
@@ -321,14 +324,19 @@ func goldilocksDomain() *domain {
 	d.ops = []op{
 		{name: "ScalarMult", recv: P, args: []int{S, P}, do: func(c *call) []byte { *c.recv = e.ScalarMult(sc(c.args[0]), pt(c.args[1])); return nil }, weight: 3},
 		{name: "ScalarBaseMult", recv: P, args: []int{S}, do: func(c *call) []byte { *c.recv = e.ScalarBaseMult(sc(c.args[0])); return nil }, weight: 2},
-		{name: "CombinedMult", recv: P, args: []int{S, S, P}, do: func(c *call) []byte { *c.recv = e.CombinedMult(sc(c.args[0]), sc(c.args[1]), pt(c.args[2])); return nil }, weight: 2},
+		{name: "CombinedMult", recv: P, args: []int{S, S, P}, do: func(c *call) []byte {
+			*c.recv = e.CombinedMult(sc(c.args[0]), sc(c.args[1]), pt(c.args[2]))
+			return nil
+		}, weight: 2},
 		{name: "Curve.Add", recv: P, args: []int{P, P}, do: func(c *call) []byte { *c.recv = e.Add(pt(c.args[0]), pt(c.args[1])); return nil }, weight: 2},
 		{name: "Curve.Double", recv: P, args: []int{P}, do: func(c *call) []byte { *c.recv = e.Double(pt(c.args[0])); return nil }, weight: 2},
 		{name: "Point.Add", recv: P, recvIsArg: true, args: []int{P}, do: func(c *call) []byte { pt(*c.recv).Add(pt(c.args[1])); return nil }, weight: 2},
 		{name: "Point.Neg", recv: P, recvIsArg: true, do: func(c *call) []byte { pt(*c.recv).Neg(); return nil }, weight: 3},
 		{name: "Generator", recv: P, do: func(c *call) []byte { *c.recv = e.Generator(); return nil }, weight: 3},
 		{name: "Identity", recv: P, do: func(c *call) []byte { *c.recv = e.Identity(); return nil }, weight: 2},
-		{name: "Unmarshal", recv: P, x: func(rng *rand.Rand, pool [][]interface{}) []byte { return must(pt(pool[P][rng.Intn(len(pool[P]))]).MarshalBinary()) },
+		{name: "Unmarshal", recv: P, x: func(rng *rand.Rand, pool [][]interface{}) []byte {
+			return must(pt(pool[P][rng.Intn(len(pool[P]))]).MarshalBinary())
+		},
 			do: func(c *call) []byte {
 				if err := pt(*c.recv).UnmarshalBinary(c.x); err != nil {
 					panic(err)
@@ -367,7 +375,12 @@ func fourqDomain() *domain {
 		{name: "Add", recv: P, args: []int{P, P}, do: func(c *call) []byte { pt(*c.recv).Add(pt(c.args[0]), pt(c.args[1])); return nil }, weight: 3},
 		{name: "SetGenerator", recv: P, do: func(c *call) []byte { pt(*c.recv).SetGenerator(); return nil }, weight: 2},
 		{name: "SetIdentity", recv: P, do: func(c *call) []byte { pt(*c.recv).SetIdentity(); return nil }, weight: 1},
-		{name: "Unmarshal", recv: P, x: func(rng *rand.Rand, pool [][]interface{}) []byte { var b [32]byte; q := *pt(pool[P][rng.Intn(len(pool[P]))]); q.Marshal(&b); return b[:] },
+		{name: "Unmarshal", recv: P, x: func(rng *rand.Rand, pool [][]interface{}) []byte {
+			var b [32]byte
+			q := *pt(pool[P][rng.Intn(len(pool[P]))])
+			q.Marshal(&b)
+			return b[:]
+		},
 			do: func(c *call) []byte {
 				var b [32]byte
 				copy(b[:], c.x)
@@ -403,9 +416,17 @@ func csidhDomain(rng *rand.Rand) *domain {
 	}
 	d := &domain{name: "dh.csidh", calls: 24}
 	d.kinds = []kind{
-		{"pub", 3, func(o interface{}) []byte { b := make([]byte, csidh.PublicKeySize); o.(*csidh.PublicKey).Export(b); return b },
+		{"pub", 3, func(o interface{}) []byte {
+			b := make([]byte, csidh.PublicKeySize)
+			o.(*csidh.PublicKey).Export(b)
+			return b
+		},
 			func(*rand.Rand) interface{} { return new(csidh.PublicKey) }},
-		{"prv", 2, func(o interface{}) []byte { b := make([]byte, csidh.PrivateKeySize); o.(*csidh.PrivateKey).Export(b); return b },
+		{"prv", 2, func(o interface{}) []byte {
+			b := make([]byte, csidh.PrivateKeySize)
+			o.(*csidh.PrivateKey).Export(b)
+			return b
+		},
 			func(*rand.Rand) interface{} { return new(csidh.PrivateKey) }},
 	}
 	d.ops = []op{
@@ -477,13 +498,29 @@ func pqDomain(rng *rand.Rand) *domain {
 	}
 	d := &domain{name: "pq.keys", calls: 120}
 	d.kinds = []kind{
-		{"kyber768.sk", 2, func(o interface{}) []byte { b := make([]byte, kyber768.PrivateKeySize); o.(*kyber768.PrivateKey).Pack(b); return b },
+		{"kyber768.sk", 2, func(o interface{}) []byte {
+			b := make([]byte, kyber768.PrivateKeySize)
+			o.(*kyber768.PrivateKey).Pack(b)
+			return b
+		},
 			func(*rand.Rand) interface{} { sk := new(kyber768.PrivateKey); sk.Unpack(ksk[0]); return sk }},
-		{"kyber768.pk", 2, func(o interface{}) []byte { b := make([]byte, kyber768.PublicKeySize); o.(*kyber768.PublicKey).Pack(b); return b },
+		{"kyber768.pk", 2, func(o interface{}) []byte {
+			b := make([]byte, kyber768.PublicKeySize)
+			o.(*kyber768.PublicKey).Pack(b)
+			return b
+		},
 			func(*rand.Rand) interface{} { pk := new(kyber768.PublicKey); pk.Unpack(kpk[0]); return pk }},
-		{"mlkem768.sk", 2, func(o interface{}) []byte { b := make([]byte, mlkem768.PrivateKeySize); o.(*mlkem768.PrivateKey).Pack(b); return b },
+		{"mlkem768.sk", 2, func(o interface{}) []byte {
+			b := make([]byte, mlkem768.PrivateKeySize)
+			o.(*mlkem768.PrivateKey).Pack(b)
+			return b
+		},
 			func(*rand.Rand) interface{} { sk := new(mlkem768.PrivateKey); sk.Unpack(msk[0]); return sk }},
-		{"mlkem768.pk", 2, func(o interface{}) []byte { b := make([]byte, mlkem768.PublicKeySize); o.(*mlkem768.PublicKey).Pack(b); return b },
+		{"mlkem768.pk", 2, func(o interface{}) []byte {
+			b := make([]byte, mlkem768.PublicKeySize)
+			o.(*mlkem768.PublicKey).Pack(b)
+			return b
+		},
 			func(*rand.Rand) interface{} { pk := new(mlkem768.PublicKey); _ = pk.Unpack(mpk[0]); return pk }},
 		{"mldsa65.sk", 2, skToken,
 			func(*rand.Rand) interface{} { sk := new(mldsa65.PrivateKey); _ = sk.UnmarshalBinary(dsk[0]); return sk }},
@@ -500,9 +537,17 @@ func pqDomain(rng *rand.Rand) *domain {
 		fsk, fpk = append(fsk, a), append(fpk, b)
 	}
 	d.kinds = append(d.kinds,
-		kind{"frodo.sk", 2, func(o interface{}) []byte { b := outbuf(rng, frodo640shake.PrivateKeySize); o.(*frodo640shake.PrivateKey).Pack(b); return b },
+		kind{"frodo.sk", 2, func(o interface{}) []byte {
+			b := outbuf(rng, frodo640shake.PrivateKeySize)
+			o.(*frodo640shake.PrivateKey).Pack(b)
+			return b
+		},
 			func(*rand.Rand) interface{} { sk := new(frodo640shake.PrivateKey); sk.Unpack(fsk[0]); return sk }},
-		kind{"frodo.pk", 2, func(o interface{}) []byte { b := outbuf(rng, frodo640shake.PublicKeySize); o.(*frodo640shake.PublicKey).Pack(b); return b },
+		kind{"frodo.pk", 2, func(o interface{}) []byte {
+			b := outbuf(rng, frodo640shake.PublicKeySize)
+			o.(*frodo640shake.PublicKey).Pack(b)
+			return b
+		},
 			func(*rand.Rand) interface{} { pk := new(frodo640shake.PublicKey); pk.Unpack(fpk[0]); return pk }})
 	d.ops = []op{
 		{name: "kyber.sk.Unpack", recv: KSK, x: pick(&ksk), do: func(c *call) []byte { (*c.recv).(*kyber768.PrivateKey).Unpack(c.x); return nil }, fresh: func() interface{} { return new(kyber768.PrivateKey) }, weight: 3},
@@ -513,7 +558,10 @@ func pqDomain(rng *rand.Rand) *domain {
 			c.args[1].(*kyber768.PrivateKey).DecapsulateTo(ss2, ct)
 			return append(append(ct, ss...), ss2...)
 		}, weight: 2},
-		{name: "kyber.sk.Public", recv: KPK, args: []int{KSK}, do: func(c *call) []byte { *c.recv = c.args[0].(*kyber768.PrivateKey).Public().(*kyber768.PublicKey); return nil }, weight: 2},
+		{name: "kyber.sk.Public", recv: KPK, args: []int{KSK}, do: func(c *call) []byte {
+			*c.recv = c.args[0].(*kyber768.PrivateKey).Public().(*kyber768.PublicKey)
+			return nil
+		}, weight: 2},
 		{name: "mlkem.sk.Unpack", recv: MSK, x: pick(&msk), do: func(c *call) []byte { (*c.recv).(*mlkem768.PrivateKey).Unpack(c.x); return nil }, fresh: func() interface{} { return new(mlkem768.PrivateKey) }, weight: 3},
 		{name: "mlkem.pk.Unpack", recv: MPK, x: pick(&mpk), do: func(c *call) []byte {
 			if err := (*c.recv).(*mlkem768.PublicKey).Unpack(c.x); err != nil {
@@ -527,7 +575,10 @@ func pqDomain(rng *rand.Rand) *domain {
 			c.args[1].(*mlkem768.PrivateKey).DecapsulateTo(ss2, ct)
 			return append(append(ct, ss...), ss2...)
 		}, weight: 2},
-		{name: "mlkem.sk.Public", recv: MPK, args: []int{MSK}, do: func(c *call) []byte { *c.recv = c.args[0].(*mlkem768.PrivateKey).Public().(*mlkem768.PublicKey); return nil }, weight: 2},
+		{name: "mlkem.sk.Public", recv: MPK, args: []int{MSK}, do: func(c *call) []byte {
+			*c.recv = c.args[0].(*mlkem768.PrivateKey).Public().(*mlkem768.PublicKey)
+			return nil
+		}, weight: 2},
 		{name: "frodo.sk.Unpack", recv: FSK, x: pick(&fsk), do: func(c *call) []byte { (*c.recv).(*frodo640shake.PrivateKey).Unpack(c.x); return nil }, fresh: func() interface{} { return new(frodo640shake.PrivateKey) }, weight: 3},
 		{name: "frodo.pk.Unpack", recv: FPK, x: pick(&fpk), do: func(c *call) []byte { (*c.recv).(*frodo640shake.PublicKey).Unpack(c.x); return nil }, fresh: func() interface{} { return new(frodo640shake.PublicKey) }, weight: 3},
 		{name: "frodo.EncapDecap", recv: -1, args: []int{FPK, FSK}, x: seed32, do: func(c *call) []byte {
@@ -536,7 +587,10 @@ func pqDomain(rng *rand.Rand) *domain {
 			c.args[1].(*frodo640shake.PrivateKey).DecapsulateTo(ss2, ct)
 			return append(append(ct, ss...), ss2...)
 		}, weight: 2},
-		{name: "frodo.sk.Public", recv: FPK, args: []int{FSK}, do: func(c *call) []byte { *c.recv = c.args[0].(*frodo640shake.PrivateKey).Public().(*frodo640shake.PublicKey); return nil }, weight: 2},
+		{name: "frodo.sk.Public", recv: FPK, args: []int{FSK}, do: func(c *call) []byte {
+			*c.recv = c.args[0].(*frodo640shake.PrivateKey).Public().(*frodo640shake.PublicKey)
+			return nil
+		}, weight: 2},
 		{name: "mldsa.sk.Unmarshal", recv: DSK, x: pick(&dsk), do: func(c *call) []byte {
 			if err := (*c.recv).(*mldsa65.PrivateKey).UnmarshalBinary(c.x); err != nil {
 				panic(err)
@@ -556,14 +610,17 @@ func pqDomain(rng *rand.Rand) *domain {
 			}
 			return append(sig, b2(mldsa65.Verify(c.args[1].(*mldsa65.PublicKey), c.x, nil, sig))...)
 		}, weight: 2},
-		{name: "mldsa.sk.Public", recv: DPK, args: []int{DSK}, do: func(c *call) []byte { *c.recv = c.args[0].(*mldsa65.PrivateKey).Public().(*mldsa65.PublicKey); return nil }, weight: 2},
+		{name: "mldsa.sk.Public", recv: DPK, args: []int{DSK}, do: func(c *call) []byte {
+			*c.recv = c.args[0].(*mldsa65.PrivateKey).Public().(*mldsa65.PublicKey)
+			return nil
+		}, weight: 2},
 	}
 	return d
 }
 
 func cachedKeyDomain(rng *rand.Rand) *domain {
-	const B1, B2, O = 0, 1, 2
-	var b1, b2k, ok [][]byte
+	const B1, B2, O, P1, P2, OP = 0, 1, 2, 3, 4, 5
+	var b1, b2k, ok, p1, p2, opk [][]byte
 	suite := oprf.SuiteP256
 	for i := 0; i < 3; i++ {
 		k1, err := bls.KeyGen[bls.G1](vlib.Bytes(rng, 32), nil, nil)
@@ -571,18 +628,21 @@ func cachedKeyDomain(rng *rand.Rand) *domain {
 			vlib.Die("bls: %v", err)
 		}
 		b1 = append(b1, must(k1.MarshalBinary()))
+		p1 = append(p1, must(k1.PublicKey().MarshalBinary()))
 		k2, _ := bls.KeyGen[bls.G2](vlib.Bytes(rng, 32), nil, nil)
 		b2k = append(b2k, must(k2.MarshalBinary()))
+		p2 = append(p2, must(k2.PublicKey().MarshalBinary()))
 		k3, err := oprf.DeriveKey(suite, oprf.BaseMode, vlib.Bytes(rng, 32), nil)
 		if err != nil {
 			vlib.Die("oprf: %v", err)
 		}
 		ok = append(ok, must(k3.MarshalBinary()))
+		opk = append(opk, must(k3.Public().MarshalBinary()))
 	}
 	pick := func(set *[][]byte) func(rng *rand.Rand, _ [][]interface{}) []byte {
 		return func(rng *rand.Rand, _ [][]interface{}) []byte { return (*set)[rng.Intn(len(*set))] }
 	}
-	d := &domain{name: "cached.keys", calls: 60}
+	d := &domain{name: "cached.keys", calls: 120}
 	// the value of a private-key object is what it says about itself: its bytes AND the public key it hands out
 	d.kinds = []kind{
 		{"bls.G1.sk", 2, func(o interface{}) []byte {
@@ -592,13 +652,45 @@ func cachedKeyDomain(rng *rand.Rand) *domain {
 		{"bls.G2.sk", 2, func(o interface{}) []byte {
 			k := o.(*bls.PrivateKey[bls.G2])
 			return append(must(k.MarshalBinary()), must(k.PublicKey().MarshalBinary())...)
-		}, func(*rand.Rand) interface{} { k := new(bls.PrivateKey[bls.G2]); _ = k.UnmarshalBinary(b2k[0]); return k }},
+		}, func(*rand.Rand) interface{} {
+			k := new(bls.PrivateKey[bls.G2])
+			_ = k.UnmarshalBinary(b2k[0])
+			return k
+		}},
 		{"oprf.sk", 2, func(o interface{}) []byte {
 			k := o.(*oprf.PrivateKey)
 			return append(must(k.MarshalBinary()), must(k.Public().MarshalBinary())...)
 		}, func(*rand.Rand) interface{} { k := new(oprf.PrivateKey); _ = k.UnmarshalBinary(suite, ok[0]); return k }},
+		// the public keys the private keys hand out: a caller may decode another key into such an object
+		{"bls.G1.pk", 2, func(o interface{}) []byte { return must(o.(*bls.PublicKey[bls.G1]).MarshalBinary()) },
+			func(*rand.Rand) interface{} { k := new(bls.PublicKey[bls.G1]); _ = k.UnmarshalBinary(p1[0]); return k }},
+		{"bls.G2.pk", 2, func(o interface{}) []byte { return must(o.(*bls.PublicKey[bls.G2]).MarshalBinary()) },
+			func(*rand.Rand) interface{} { k := new(bls.PublicKey[bls.G2]); _ = k.UnmarshalBinary(p2[0]); return k }},
+		{"oprf.pk", 2, func(o interface{}) []byte { return must(o.(*oprf.PublicKey).MarshalBinary()) },
+			func(*rand.Rand) interface{} { k := new(oprf.PublicKey); _ = k.UnmarshalBinary(suite, opk[0]); return k }},
 	}
 	d.ops = []op{
+		{name: "bls.G1.sk.PublicKey", recv: P1, args: []int{B1}, do: func(c *call) []byte { *c.recv = c.args[0].(*bls.PrivateKey[bls.G1]).PublicKey(); return nil }, weight: 2},
+		{name: "bls.G2.sk.PublicKey", recv: P2, args: []int{B2}, do: func(c *call) []byte { *c.recv = c.args[0].(*bls.PrivateKey[bls.G2]).PublicKey(); return nil }, weight: 2},
+		{name: "oprf.sk.Public", recv: OP, args: []int{O}, do: func(c *call) []byte { *c.recv = c.args[0].(*oprf.PrivateKey).Public(); return nil }, weight: 2},
+		{name: "bls.G1.pk.Unmarshal", recv: P1, x: pick(&p1), do: func(c *call) []byte {
+			if err := (*c.recv).(*bls.PublicKey[bls.G1]).UnmarshalBinary(c.x); err != nil {
+				panic(err)
+			}
+			return nil
+		}, fresh: func() interface{} { return new(bls.PublicKey[bls.G1]) }, weight: 2},
+		{name: "bls.G2.pk.Unmarshal", recv: P2, x: pick(&p2), do: func(c *call) []byte {
+			if err := (*c.recv).(*bls.PublicKey[bls.G2]).UnmarshalBinary(c.x); err != nil {
+				panic(err)
+			}
+			return nil
+		}, fresh: func() interface{} { return new(bls.PublicKey[bls.G2]) }, weight: 2},
+		{name: "oprf.pk.Unmarshal", recv: OP, x: pick(&opk), do: func(c *call) []byte {
+			if err := (*c.recv).(*oprf.PublicKey).UnmarshalBinary(suite, c.x); err != nil {
+				panic(err)
+			}
+			return nil
+		}, fresh: func() interface{} { return new(oprf.PublicKey) }, weight: 2},
 		{name: "bls.G1.Unmarshal", recv: B1, x: pick(&b1), do: func(c *call) []byte {
 			if err := (*c.recv).(*bls.PrivateKey[bls.G1]).UnmarshalBinary(c.x); err != nil {
 				panic(err)
@@ -634,13 +726,26 @@ func cachedKeyDomain(rng *rand.Rand) *domain {
 // ---------------------------------------------------------------- XOF states
 func xofDomain(id xof.ID, name string) *domain {
 	const A, Q = 0, 1
-	peek := func(o interface{}) []byte { b := make([]byte, 16); c := o.(xof.XOF).Clone(); _, _ = c.Read(b); return b }
+	peek := func(o interface{}) []byte {
+		b := make([]byte, 16)
+		c := o.(xof.XOF).Clone()
+		_, _ = c.Read(b)
+		return b
+	}
 	d := &domain{name: "xof." + name, calls: 120}
 	d.kinds = []kind{
 		{"absorbing", 3, peek, func(rng *rand.Rand) interface{} { h := id.New(); _, _ = h.Write(vlib.Bytes(rng, 3)); return h }},
-		{"squeezing", 3, peek, func(rng *rand.Rand) interface{} { h := id.New(); _, _ = h.Write(vlib.Bytes(rng, 3)); b := make([]byte, 1); _, _ = h.Read(b); return h }},
+		{"squeezing", 3, peek, func(rng *rand.Rand) interface{} {
+			h := id.New()
+			_, _ = h.Write(vlib.Bytes(rng, 3))
+			b := make([]byte, 1)
+			_, _ = h.Read(b)
+			return h
+		}},
 	}
-	data := func(rng *rand.Rand, _ [][]interface{}) []byte { return bytes.Repeat([]byte{byte(rng.Intn(3))}, []int{1, 135, 136, 168, 200}[rng.Intn(5)]) }
+	data := func(rng *rand.Rand, _ [][]interface{}) []byte {
+		return bytes.Repeat([]byte{byte(rng.Intn(3))}, []int{1, 135, 136, 168, 200}[rng.Intn(5)])
+	}
 	d.ops = []op{
 		{name: "Write", recv: A, recvIsArg: true, x: data, do: func(c *call) []byte { _, _ = (*c.recv).(xof.XOF).Write(c.x); return nil }, weight: 3},
 		{name: "Clone", recv: A, args: []int{A}, do: func(c *call) []byte { *c.recv = c.args[0].(xof.XOF).Clone(); return nil }, weight: 3},
@@ -652,7 +757,9 @@ func xofDomain(id xof.ID, name string) *domain {
 			*c.recv = h
 			return nil
 		}, weight: 2},
-		{name: "Read", recv: Q, recvIsArg: true, x: func(rng *rand.Rand, _ [][]interface{}) []byte { return []byte{byte([]int{1, 7, 136, 168, 169}[rng.Intn(5)])} },
+		{name: "Read", recv: Q, recvIsArg: true, x: func(rng *rand.Rand, _ [][]interface{}) []byte {
+			return []byte{byte([]int{1, 7, 136, 168, 169}[rng.Intn(5)])}
+		},
 			do: func(c *call) []byte { b := make([]byte, int(c.x[0])); _, _ = (*c.recv).(xof.XOF).Read(b); return nil }, weight: 3},
 		{name: "CloneSqueezing", recv: Q, args: []int{Q}, do: func(c *call) []byte { *c.recv = c.args[0].(xof.XOF).Clone(); return nil }, weight: 3},
 	}
